@@ -256,6 +256,12 @@ def oracle(case, r):
     acc = bool(case["acc"])
     if crash:
         V.append(("C12", "crash", "run raised " + crash))
+        if case["kind"] == "cont" and case["acc"] and any(st[1].startswith("STALLED") for st in r["states"]):
+            # the closing-up logic of an accumulating belt gave up (its own placement / bookkeeping error) after a stall had
+            # begun: items did not close up behind the waiting head (the registry keeps this clause for on-grid
+            # one-producer cases only, where the unchanged code is known never to fail)
+            V.append(("C13", "stall-crash", "accumulating belt failed after a stall began at %s: %s" %
+                      (next(st[0] for st in r["states"] if st[1].startswith("STALLED")), crash)))
         return V
     for (t, cp, granted) in r.get("probe_mismatch", [])[:1]:
         V.append(("C12", "probe", "can_put() = %s at %s but a reservation issued in the same instant was %s" % (cp, t, "granted" if granted else "not granted")))
